@@ -747,13 +747,17 @@ impl<S: Sample> RenderedImage<S> {
         *grid_lock = FrameRender::Rendering;
         drop(grid_lock);
 
-        composite(
+        if let Err(e) = composite(
             &self.image.frame,
             &mut grid,
             self.image.refs.clone(),
             oriented_image_region,
             pool,
-        )?;
+        ) {
+            // Leave the "rendering" state and wake up waiters; otherwise they would wait forever.
+            drop(self.image.done_render(FrameRender::ErrTaken));
+            return Err(e);
+        }
 
         let image = Arc::new(grid);
         drop(
